@@ -14,6 +14,7 @@ import OidcModel.Spec.C16
 import OidcModel.Model.DeviceFlow
 import OidcModel.Proofs.Base64
 import OidcModel.Proofs.Query
+import OidcModel.Proofs.C16Char
 
 namespace C16
 open Go Gen Hand
@@ -31,9 +32,7 @@ theorem c16_order (now : Int) (clientID code : String) (p : DevProvider) :
         else if st.Done = true then .ok st
         else if now > st.Expires then .error "ErrExpiredDeviceCode"
         else .error "ErrAuthorizationPending" := by
-  unfold CheckDeviceAuthorizationState assertDeviceStorage
-  cases hcap : p.deviceCap <;> simp [DevProvider.Storage, hcap]
-  split <;> simp_all [Go.errorsIs, Go.tAfter]
+  rw [checkState_eq]; rfl
 
 /-- tokens can only follow from a stored state that is approved and not denied -/
 theorem checkState_ok {now clientID code p st} (h : CheckDeviceAuthorizationState now clientID code p = .ok st) :
@@ -676,8 +675,8 @@ theorem deviceAccessToken_ok {now : Int} {r : DevHttpRequest} {p : DevProvider} 
     ∃ a st c, Hand.ClientIDFromRequest now r p = .ok (r.clientID, a) ∧
       CheckDeviceAuthorizationState now r.clientID r.PostForm.DeviceCode p = .ok st ∧
       p.p.store.GetClientByClientID r.clientID = .ok c ∧ (a = true ∨ c.auth = Const.AuthMethodNone) ∧ i = issueOf p st c := by
-  unfold deviceAccessToken ParseDeviceAccessTokenRequest at h
-  simp only [DevHttpRequest.WithContext, DevProvider.Decoder, DevDecoder.Decode] at h
+  rw [deviceAccessToken_eq] at h
+  unfold deviceAccessTokenSpec at h
   split at h; · simp at h
   rename_i id a hcid
   have hid := (clientIDFromRequest_ok hcid).1
@@ -691,12 +690,7 @@ theorem deviceAccessToken_ok {now : Int} {r : DevHttpRequest} {p : DevProvider} 
   simp only [Hand.issueForDevice] at h
   simp only [Except.ok.injEq] at h
   refine ⟨a, st, c, hcid, hst, hc, ?_, h.symm⟩
-  simp [OPClient.AuthMethod] at hauth
   cases a <;> simp_all
-
-theorem validateGrantType_iff {now : Int} {c : OPClient} {g : String} : ValidateGrantType now c g = true ↔ g ∈ c.grants := by
-  unfold ValidateGrantType Go.any OPClient.GrantTypes
-  simp [Go.isNil, Nilable.isNil]
 
 /-- Server router: `withClient` for a request without client assertion and a grant other than client_credentials:
     the client is the registered one of that id, the named grant is registered, and a client with credentials presented its secret -/
@@ -761,8 +755,9 @@ theorem withClient_ok {now : Int} {p : Provider} {g : String} {cc : ClientCreden
 theorem legacyDeviceToken_ok {now : Int} {s : DevLegacyServer} {r : ClientRequest DevFormData} {i : DevIssue}
     (h : LegacyDeviceToken now s r = .ok i) :
     ∃ st, CheckDeviceAuthorizationState now r.Client.id r.Data.DeviceCode s.provider = .ok st ∧ i = issueOf s.provider st r.Client := by
-  unfold LegacyDeviceToken at h
-  simp only [OPClient.GetID, Hand.issueForDevice, Hand.NewResponse] at h
+  rw [legacyDeviceToken_eq] at h
+  unfold legacyDeviceTokenSpec at h
+  simp only [Hand.issueForDevice] at h
   split at h; · simp at h
   split at h; · simp at h
   rename_i st hst
@@ -929,13 +924,14 @@ theorem deviceToken_legit {now : Int} {rt : Flow.Router} {p : DevProvider} {r : 
           cases hps : p.p.postSupported <;> simp [Hand.ClientIDFromRequest, hk, hsec, hps, hgc', hnp], Or.inl rfl⟩
     obtain ⟨a, hcid, hauth⟩ := hcid
     simp only [deviceToken, DevProvider.GrantTypeDeviceCodeSupported, hcap]
-    unfold deviceAccessToken ParseDeviceAccessTokenRequest
-    simp only [DevHttpRequest.WithContext, DevDecoder.Decode, hcid, Hand.issueForDevice]
+    rw [deviceAccessToken_eq]
+    unfold deviceAccessTokenSpec
+    simp only [hcid, Hand.issueForDevice]
     cases hst : CheckDeviceAuthorizationState now r.clientID r.PostForm.DeviceCode p with
     | error e => simp
     | ok st =>
-      have : p.Storage.GetClientByClientID r.clientID = .ok c := hgc
-      simp only [this, OPClient.AuthMethod]
+      have : p.p.store.GetClientByClientID r.clientID = .ok c := hgc
+      simp only [this]
       rcases hauth with rfl | hn
       · simp [issueOf]
       · simp [hn, issueOf]
@@ -943,8 +939,9 @@ theorem deviceToken_legit {now : Int} {rt : Flow.Router} {p : DevProvider} {r : 
     have hwc := withClient_legit (now := now) (p := p.p) (g := Const.GrantTypeDeviceCode) (by decide) hfind (Or.inr hgrant) hpp hid
     simp only [deviceToken, hwc]
     simp only [hcode, bne_iff_ne, ne_eq, beq_iff_eq, if_false]
-    unfold LegacyDeviceToken
-    simp only [DevProvider.GrantTypeDeviceCodeSupported, hcap, OPClient.GetID, find_id hfind, Hand.issueForDevice, Hand.NewResponse]
+    rw [legacyDeviceToken_eq]
+    unfold legacyDeviceTokenSpec
+    simp only [hcap, find_id hfind, Hand.issueForDevice]
     cases hst : CheckDeviceAuthorizationState now r.clientID r.PostForm.DeviceCode p with
     | error e => simp
     | ok st => simp [issueOf]
@@ -1108,8 +1105,8 @@ theorem deviceAuthorization_cases {now : Int} {rt : Flow.Router} {p : DevProvide
   cases rt with
   | provider =>
     simp only [deviceAuthorization]
-    unfold Gen.DeviceAuthorization ParseDeviceCodeRequest
-    simp only [DevHttpRequest.WithContext, DevDecoder.Decode]
+    rw [deviceAuthorization_eq]
+    unfold deviceAuthorizationSpec parseDeviceCodeRequestSpec
     cases hcid : Hand.ClientIDFromRequest now r p with
     | error e =>
       have : e ≠ "panic" := by
@@ -1124,24 +1121,18 @@ theorem deviceAuthorization_cases {now : Int} {rt : Flow.Router} {p : DevProvide
       have hid := (clientIDFromRequest_ok hcid).1
       subst hid
       simp only
-      cases hgc : p.Storage.GetClientByClientID r.clientID with
+      cases hgc : p.p.store.GetClientByClientID r.clientID with
       | error e =>
         have : e ≠ "panic" := by
-          simp only [DevProvider.Storage, DevStore.GetClientByClientID, Store.GetClientByClientID] at hgc
+          simp only [Store.GetClientByClientID] at hgc
           split at hgc <;> simp at hgc
           subst hgc; decide
         simp [this]
       | ok c =>
         simp only
-        by_cases hvg : ValidateGrantType now c Const.GrantTypeDeviceCode = true
-        · simp only [hvg, Bool.not_true, Bool.false_eq_true, ↓reduceIte]
-          constructor
-          · intro resp h
-            refine ⟨{ r.Form with ClientID := r.clientID }, rfl, ?_⟩
-            split at h <;> simp_all
-          · intro h
-            refine ⟨{ r.Form with ClientID := r.clientID }, ?_⟩
-            split at h <;> simp_all
+        by_cases hvg : Const.GrantTypeDeviceCode ∈ c.grants
+        · simp only [hvg, if_true]
+          exact ⟨fun resp h => ⟨{ r.Form with ClientID := r.clientID }, rfl, h⟩, fun h => ⟨{ r.Form with ClientID := r.clientID }, h⟩⟩
         · simp [hvg]
   | legacy =>
     simp only [deviceAuthorization]
@@ -1154,17 +1145,12 @@ theorem deviceAuthorization_cases {now : Int} {rt : Flow.Router} {p : DevProvide
       have hcid : c.id = r.clientID := by
         rw [← ccOf_id hid]; exact find_id (getClient_ok_iff.1 hc)
       simp only
-      unfold LegacyDeviceAuthorization
-      simp only [OPClient.GetID, Hand.asStatusError, Hand.NewResponse, hcid]
-      by_cases hvg : ValidateGrantType now c Const.GrantTypeDeviceCode = true
-      · simp only [hvg, Bool.not_true, Bool.false_eq_true, ↓reduceIte]
-        constructor
-        · intro resp h
-          refine ⟨r.Form, rfl, ?_⟩
-          split at h <;> simp_all
-        · intro h
-          refine ⟨r.Form, ?_⟩
-          split at h <;> simp_all
+      rw [legacyDeviceAuthorization_eq]
+      unfold legacyDeviceAuthorizationSpec
+      simp only [hcid]
+      by_cases hvg : Const.GrantTypeDeviceCode ∈ c.grants
+      · simp only [hvg, if_true]
+        exact ⟨fun resp h => ⟨r.Form, rfl, h⟩, fun h => ⟨r.Form, h⟩⟩
       · simp [hvg]
 
 /-- the response of the model to an accepted device_authorization request satisfies the monitor: formats, URIs, lifetime -/
